@@ -627,9 +627,9 @@ theorem breakScan_good (m : Meta) : ∀ (cur : List Stmt) (d : Nat), Good (fun c
       · exact good_metaErr _ _ _ _
       · exact step _
 
-/-- every function value a definition creates satisfies `P` -/
+/-- every function value a definition (`ফাং` followed by its header) creates satisfies `P` -/
 def FuncIntro (prog : List Stmt) : Prop :=
-  ∀ pre ce args cm m body params, prog = pre ++ Stmt.expr (.call ce args cm) m :: body →
+  ∀ pre fm ce args cm m body params, prog = pre ++ Stmt.funcDef fm :: Stmt.expr (.call ce args cm) m :: body →
     paramNames args = some params → P body.length params
 
 theorem StOK.withHeap {prog : List Stmt} {s : St} (hs : StOK P prog s) {h : Heap} (hh : HeapOK P h) (hle : HeapLe s.heap h) :
@@ -681,7 +681,8 @@ theorem bodyOf_suffix (prog : List Stmt) (rem : Nat) : IsSuffixOf (bodyOf prog r
 theorem mem_of_suffix {cur prog : List Stmt} (h : IsSuffixOf cur prog) {st : Stmt} (hm : st ∈ cur) : st ∈ prog := by
   obtain ⟨pre, rfl⟩ := h; simp [hm]
 
-theorem execFuncDef_good {prog rest : List Stmt} {s : St} (hf : FuncIntro P prog) (hsuf : IsSuffixOf rest prog) (hs : StOK P prog s) :
+theorem execFuncDef_good {prog rest : List Stmt} {s : St} {fm : Meta} (hf : FuncIntro P prog)
+    (hsuf : IsSuffixOf (Stmt.funcDef fm :: rest) prog) (hs : StOK P prog s) :
     Good (fun (x : List Stmt × St) => IsSuffixOf x.1 prog ∧ StOK P prog x.2 ∧ HeapLe s.heap x.2.heap) (execFuncDef prog rest s) := by
   simp only [execFuncDef]
   split
@@ -692,7 +693,7 @@ theorem execFuncDef_good {prog rest : List Stmt} {s : St} (hf : FuncIntro P prog
       · exact good_metaErr _ _ _ _
       · rename_i params hpar
         obtain ⟨pre, hpre⟩ := hsuf
-        have hP : P body.length params := hf pre _ args cm m body params hpre hpar
+        have hP : P body.length params := hf pre fm _ args cm m body params hpre hpar
         have hd := declareVar_good P hs.scopes ftok.lexeme (v := .func body.length params) (by simpa [ValOK] using hP)
         cases hdv : declareVar s.scopes ftok.lexeme (.func body.length params) with
         | ok sc =>
@@ -707,7 +708,7 @@ theorem execFuncDef_good {prog rest : List Stmt} {s : St} (hf : FuncIntro P prog
             · exact good_unexpected _ _
             · rename_i e m' after'
               have h1 : IsSuffixOf after' body := IsSuffixOf.tail hsk
-              have h2 : IsSuffixOf body prog := ⟨pre ++ [Stmt.expr ((Expr.var ftok vm).call args cm) m], by rw [hpre]; simp⟩
+              have h2 : IsSuffixOf body prog := ⟨pre ++ [Stmt.funcDef fm, Stmt.expr ((Expr.var ftok vm).call args cm) m], by rw [hpre]; simp⟩
               exact Good.ok ⟨h1.trans h2, ⟨hs.heap, hd.1, hs.loops⟩, HeapLe.refl _⟩
             · split
               · exact good_metaErr _ _ _ _
